@@ -101,7 +101,7 @@ def sensitivity(V, ids):
             sh(["git", "-C", V.REPO, "checkout", "--", "."])
         caught = [p for p, o in outcome.items() if o["exit"] == 1 and o["violations"] > 0]
         res = "caught by " + ",".join(caught) if caught else "MISSED"
-        print("sensitivity %-28s (%s): %s  [%.0fs]" % (c["id"], c["property"], res, time.time() - t0))
+        print("sensitivity %-28s (%s): %s  [%.0fs]" % (c["id"], c["property"], res, time.time() - t0), flush=True)
         for p, o in outcome.items():
             if o["first"]:
                 print("    %s: %s" % (p, o["first"][:300]))
